@@ -1010,6 +1010,26 @@ def call_styles(ops):
             op['ill'] = 1
         if k in REPEATABLE and rng2.random() < prep:
             op['rep'] = rng2.choice([2, 3, 20, 40])
+    if rng2.random() < 0.04 and not any(op['op'] in ('eval', 'affs') and isinstance(op.get('e', op.get('affs')), dict) for op in ops):
+        # (histories whose later ops refer to earlier results by index keep their length)
+        keep = ops[:8]
+        if not any('ref' in json.dumps(op) for op in keep):
+            ops[:] = keep + aging_block(rng2)
+    if rng2.random() < 0.05:
+        # a family the byte pools do not hold: instructions without architectural effect next to their x87 relatives
+        # (nop / fnop / fwait / prefetch / ffree st(i) / ffreep st(i)) - lifts that return an empty or shared list
+        fam = ['90', 'd9d0', '9b', 'ddc0', 'ddc1', 'dfc0', 'dfc1', '0f1808', '0f0d08', '6690', 'dfc0', '90']
+        newhex = {}
+        for i, op in enumerate(ops):
+            if op.get('iref') is not None:
+                if op['iref'] in newhex:
+                    op['hex'] = newhex[op['iref']]          # (an op on a kept instruction object follows that object)
+                continue
+            if op['op'] in ('lift', 'dis', 'step') and 'mode' not in op and rng2.random() < 0.7:
+                op['hex'] = rng2.choice(fam)
+                op.pop('segm', None)
+                if op['op'] == 'dis':
+                    newhex[i] = op['hex']
     if rng2.random() < 0.15:
         # a retry storm: ONE ill-typed simplification repeated many times, early enough for later calls to feel it
         cands = [i for i, op in enumerate(ops[:max(1, len(ops) * 2 // 3)]) if op['op'] in ('simp', 'exprapi') and isinstance(op.get('e'), list)]
@@ -1018,6 +1038,31 @@ def call_styles(ops):
             op['e'] = ill_typed(rng2, op['e'], regs)
             op['ill'] = 1
             op['rep'] = rng2.choice([20, 40, 40, 64])
+
+def aging_block(rng):
+    """A long assembler history for whatever ages entries out: an operand text T is used, then 16-36 lines with
+    pairwise distinct other operand texts go by, then T comes back in a line whose mnemonic makes the assembler edit
+    the parsed operand (lea / push word / prefetch), then in ordinary lines again."""
+    att = rng.random() < 0.3
+    if att:
+        T = rng.choice(['6(%ebp)', '64(%eax)', '4(%ebx,%ecx,2)'])
+        users = ['movw %s, %%cx' % T, 'cmpb $1, %s' % T, 'movl %s, %%eax' % T]
+        editors = ['leal %s, %%eax' % T, 'pushw %s' % T, 'prefetcht0 %s' % T]
+        fill = ['movl %d(%%e%s), %%eax' % (8 * k + 100, rng.choice(['cx', 'dx', 'si', 'di'])) for k in range(40)]
+        kind = 'asm_att'
+    else:
+        T = rng.choice(['[ebp+6]', '[eax+64]', '[ebx+ecx*2+4]'])
+        users = ['mov cx, word ptr %s' % T, 'cmp byte ptr %s, 1' % T, 'mov eax, dword ptr %s' % T, 'mov cx, word ptr %s' % T]
+        editors = ['lea eax, word ptr %s' % T, 'lea eax, %s' % T, 'push word ptr %s' % T, 'prefetcht0 byte ptr %s' % T, 'lea ecx, dword ptr %s' % T]
+        fill = ['%s eax, %s ptr [e%s+%d]' % (rng.choice(['mov', 'add', 'cmp']), rng.choice(['dword', 'dword', 'word', 'byte']) if False else 'dword',
+                                           rng.choice(['cx', 'dx', 'si', 'di']), 8 * k + 100) for k in range(40)]
+        kind = 'asm'
+    rng.shuffle(fill)
+    n = rng.choice([16, 17, 20, 33, 36])
+    lines = [rng.choice(users)] + fill[:n] + [rng.choice(editors)] + [rng.choice(users), rng.choice(users)]
+    if rng.random() < 0.5:
+        lines = [users[0], rng.choice(editors)] + lines
+    return [{'op': kind, 'line': l, 'c': 0} for l in lines]
 
 def ill_typed(rng, e, regs):
     narrow = rng.choice([['I', 'uint8', rng.choice([1, 2, 5])], ['S', rng.choice(regs), 0, 16], ['I', 'uint16', 0x100]])
